@@ -317,7 +317,10 @@ func runC05(c *Ctx) {
 	if f := p.Method(pkgRRuntime, "Adapter", "WatchTrigger"); c.NeedFunc("R05.7", f, "rruntime.WatchTrigger") {
 		c.MustCut("R05.7", "return without trigger ⊣ {a filter exists and rejects the event}", f, IsReturn, CutSpec{Nodes: p.CallTo("(*" + pkgRRuntime + ".Adapter).triggerReconcile"), Edges: FactEdge("false(call:dyn:lookup(*param#0.watchFilters,*)(param#1))")}, 1)
 
-		for _, in := range Find(f, func(in ssa.Instruction) bool { l, ok := in.(*ssa.Lookup); return ok && LoadsField(l.X, "Adapter", "watchFilters") }) {
+		for _, in := range Find(f, func(in ssa.Instruction) bool {
+			l, ok := in.(*ssa.Lookup)
+			return ok && LoadsField(l.X, "Adapter", "watchFilters")
+		}) {
 			flds := StructLitFields(in.(*ssa.Lookup).Index)
 			ok := flds != nil && Glob("*param#1.*Namespace", p.Desc(flds["Namespace"])) && Glob("*param#1.*Typ", p.Desc(flds["Type"]))
 			c.Check(ok, "R05.7", FuncName(f)+" :: the filter is looked up by the event's (namespace, type)", in.Pos(), "yes", "filter looked up by another key")
@@ -417,7 +420,7 @@ func runC05(c *Ctx) {
 		// every NewQItemFromReduced is followed by a Put of that item before the next routing decision
 		c.MustFollow("R05.8", "every built item is Put", f, p.CallTo(pkgQRuntime+".NewQItemFromReduced"), OrInstr(IsReturn, p.CallTo(pkgQRuntime+".NewQItemFromReduced")), CutSpec{Nodes: put}, 3)
 		c.NoReach("R05.8", "QMappedDestroyReady: Put only behind FilterDestroyReady(md)", f, p.EdgeSuccs(f, "eq(*.Kind,"+p.ConstVal("pkg/controller", "InputQMappedDestroyReady")+")"), 1, put,
-			CutSpec{Edges: FactEdge("true(call:"+pkgReduced+".FilterDestroyReady(param#1))"), Nodes: func(in ssa.Instruction) bool {
+			CutSpec{Edges: FactEdge("true(call:" + pkgReduced + ".FilterDestroyReady(param#1))"), Nodes: func(in ssa.Instruction) bool {
 				// the next loop iteration
 				ifi, ok := in.(*ssa.If)
 
